@@ -283,16 +283,32 @@ namespace vtbb_detail {
             std::size_t li = pending[pk]; pending.erase(pending.begin() + pk);
             // runs are contiguous and are only ever extended at their right end
             bool can_continue = li > 0 && done[li - 1];
-            bool fresh = true;
-            if (can_continue) fresh = vx::choose(2, vx::ORDER) == 1;
+            int mode = 1;      // 0 continue the left neighbour's run, 1 fresh from the identity, 2 first join all completed runs that are contiguous to the left, then continue
+            if (can_continue) { int ch = vx::choose(3, vx::ORDER); mode = ch == 0 ? 0 : ch == 1 ? 1 : 2; }
             ++S.reduce_body_runs;
             Range sub = subrange(range, cut[leaves[li].first], cut[leaves[li].second]);
-            if (fresh) { run_of[li] = (int) run_val.size(); run_val.emplace_back(new Value(body(sub, identity))); run_first.push_back(li); }
-            else { int r = run_of[li - 1]; run_of[li] = r; Value v = body(sub, *run_val[r]); run_val[r].reset(new Value(std::move(v))); }
+            if (mode == 1) { run_of[li] = (int) run_val.size(); run_val.emplace_back(new Value(body(sub, identity))); run_first.push_back(li); }
+            else {
+                int r = run_of[li - 1];
+                if (mode == 2) {
+                    // absorb completed runs directly to the left of r (their last leaf is adjacent to r's first leaf), right to left
+                    for (;;) {
+                        std::size_t first = run_first[r];
+                        if (first == 0 || !done[first - 1]) break;
+                        int l = run_of[first - 1];
+                        ++S.reduce_joins;
+                        Value jv = join(*run_val[l], *run_val[r]);
+                        run_val[l].reset(new Value(std::move(jv)));
+                        for (std::size_t x = 0; x < L; ++x) if (run_of[x] == r) run_of[x] = l;
+                        run_val[r].reset(); r = l;
+                    }
+                }
+                run_of[li] = r; Value v = body(sub, *run_val[r]); run_val[r].reset(new Value(std::move(v)));
+            }
             done[li] = 1;
         }
-        std::vector<std::size_t> order(run_val.size());
-        for (std::size_t i = 0; i < order.size(); ++i) order[i] = i;
+        std::vector<std::size_t> order;
+        for (std::size_t i = 0; i < run_val.size(); ++i) if (run_val[i]) order.push_back(i);
         std::sort(order.begin(), order.end(), [&](std::size_t a, std::size_t b) { return run_first[a] < run_first[b]; });
         Value acc = *run_val[order[0]];
         for (std::size_t i = 1; i < order.size(); ++i) { ++S.reduce_joins; acc = join(acc, *run_val[order[i]]); }
@@ -323,18 +339,20 @@ Value parallel_reduce(const Range &range, const Value &identity, const Func &bod
         cut.push_back(N);
         C = cut.size() - 1;
     }
-    // R[i][j]: results of ONE body instance that starts fresh (identity) at cell i and has consumed cells [i,j)
-    // E[i][j]: all results for cells [i,j) including joins
-    std::vector<std::vector<std::vector<Value>>> R(C + 1, std::vector<std::vector<Value>>(C + 1)), E = R;
-    for (std::size_t i = 0; i <= C; ++i) R[i][i].push_back(identity);
+    // E[i][j]: every value a legal execution can hold for cells [i,j):
+    //   - a body instance that holds ANY value for a prefix [i,p) (E[i][i] = {identity}: a fresh instance) and then consumes
+    //     cells [p,j) in one invocation  -- this includes a body that keeps accumulating after a join, which the installed
+    //     oneTBB does produce (observed by the conformance recorder: B(52,53,J(..)));
+    //   - the order-preserving join of a value for [i,m) with a value for [m,j).
+    std::vector<std::vector<std::vector<Value>>> E(C + 1, std::vector<std::vector<Value>>(C + 1));
+    for (std::size_t i = 0; i <= C; ++i) E[i][i].push_back(identity);
     for (std::size_t len = 1; len <= C; ++len) for (std::size_t i = 0; i + len <= C; ++i) {
         std::size_t j = i + len;
-        // default first: one leaf covering everything from the identity (this is what a one-worker run does)
-        for (std::size_t p = i; p < j; ++p) for (const Value &x : R[i][p]) {
+        // default first: one invocation covering everything from the identity (this is what a one-worker run does)
+        for (std::size_t p = i; p < j; ++p) for (const Value &x : E[i][p]) {
             ++S.reduce_body_runs;
-            add_distinct(R[i][j], body(subrange(range, cut[p], cut[j]), x));
+            add_distinct(E[i][j], body(subrange(range, cut[p], cut[j]), x));
         }
-        for (const Value &x : R[i][j]) { Value c = x; add_distinct(E[i][j], std::move(c)); }
         for (std::size_t m = i + 1; m < j; ++m) for (const Value &x : E[i][m]) for (const Value &y : E[m][j]) { ++S.reduce_joins; add_distinct(E[i][j], join(x, y)); }
     }
     // purity probe: the sequential result recomputed at the end of the call must be identical
